@@ -8,7 +8,7 @@ import sys
 sys.path.insert(0, os.path.dirname(os.path.abspath(__file__)))
 import dlib  # noqa: E402
 import pvlib  # noqa: E402
-from traits.api import Int, Property, Range, TraitError  # noqa: E402
+from traits.api import HasTraits, Instance, Int, Property, PrototypedFrom, Range, TraitError  # noqa: E402
 
 PYNAME = {0: "x", 1: "other", 2: "y", 3: "z"}
 
@@ -48,7 +48,7 @@ def readable(pool, host, obj, case):
 
 def run_case(case):
     pool0 = pvlib.Pool()
-    body, moved = {}, []
+    body, moved, proto_body = {}, [], {}
     for t in case["traits"]:
         n, d = t[0], t[1]
         name = PYNAME[n]
@@ -58,6 +58,10 @@ def run_case(case):
             body["lo_" + name], body["hi_" + name] = Int(d[5]), Int(d[6])
             body[name] = Range(low="lo_" + name, high="hi_" + name, exclude_low=bool(d[3] & 1), exclude_high=bool(d[3] & 2))
             moved += [("lo_" + name, d[1]), ("hi_" + name, d[2])]
+        elif len(t) > 2 and t[2] == "prototyped":
+            # x = PrototypedFrom('parent'): assignments are validated by the PARENT's trait and stored on this object
+            proto_body[name] = pvlib.trait(d, pool0)
+            body[name] = PrototypedFrom("parent")
         elif len(t) > 2 and t[2] == "property":
             # settable validated Property: Property(<trait>) with _get/_set storing into a backing entry
             body[name] = Property(pvlib.trait(d, pool0))
@@ -65,7 +69,16 @@ def run_case(case):
             body["_set_" + name] = (lambda nm: lambda self, value: self.__dict__.__setitem__("_%s_store" % nm, value))(name)
         else:
             body[name] = pvlib.trait(d, pool0)
-    host = type("Host", (pvlib.HostBase,), body)
+    parent_cls = None
+    if proto_body:
+        parent_cls = type("Parent", (HasTraits,), proto_body)
+        body["parent"] = Instance(parent_cls)
+    host0 = type("Host", (pvlib.HostBase,), body)
+    if parent_cls is not None:      # every instance gets its own prototype object
+        host = type("Host", (host0,), {"__init__": lambda self, **kw: host0.__init__(self, parent=parent_cls(), **kw)})
+    else:
+        host = host0
+    pvlib.apply_later(pool0)
     hostsub = type("HostSub", (host,), {})
     pool = pvlib.Pool(host, hostsub)
     descs = {t[0]: t[1] for t in case["traits"]}
